@@ -21,15 +21,24 @@
    [sumZ (Z.max 0 (i-5)) (Z.min n (i+6))].
 
    Main results (all closed under the global context):
-     solve_eq         the generated term is the composition of the five stages
-     factor_spec      L, D satisfy the defining recurrences; A = L D L^T (bandLDLt)
-     solve_correct    A x = b
-     solve_unique     A x' = b  ->  x' = solve n A b   (hence solve n A (A x) = x)
+     solve_eq         the generated term is the composition of five named stages
+                      (by reflexivity: breaks if the generated code changes shape)
+     factor_spec      L, D satisfy the defining recurrences (E1, E2 / pivot_rec);
+     bandLDLt         A(i,j) = sum_k L(i,k) L(j,k) D(k) on the band (A = L D L^T)
+     fwd_spec, scl_spec, bwd_spec   L y = b,  z = y/D,  L^T x = z
+     LDLt_mul         A v = L (D (L^T v)) for every v (exchange of the band sums)
+     solve_correct    A x = b        (solve_correct_explicit: sum written out)
+     solve_unique     A x' = b  ->  x' = solve n A b
+     solve_mul_id     solve n A (A x) = x
      solve_linear_rhs solve is linear in the right-hand side
-     solve_frame      nothing outside amat[0,6n), bvec[0,n) is written
-     solve_amat_out   what the returned amat contains
-     pivot_example    an 11x11 rational system meeting the hypothesis, solved
-                      exactly (non-vacuity). *)
+     solve_frame      nothing outside amat[0,6n), bvec[0,n) is written, nor the
+                      unused tail amat[6k+r], k+r >= n, of the band storage
+                      (no pivot hypothesis needed)
+     solve_amat_out   the returned amat: 1/D on the diagonal, the factor elsewhere
+     pivot_example, pivot_example_complex
+                      indefinite rational / complex symmetric 11x11 systems that
+                      meet the hypothesis and are solved exactly (non-vacuity).
+   Nothing is left unproved. *)
 From Coq Require Import ZArith Lia Bool Field List QArith.
 From V Require Import Base.Loops Base.Arr Base.FieldSig Base.Tactics Base.ExecQ.
 From V Require Import Gen.CoreBand Proofs.BandSums.
@@ -204,13 +213,15 @@ Section BandLDL.
       let a := snd (fst st) in
       (forall k, (0 <= k < j)%Z -> ColOK a k) /\
       (forall idx, (idx < 0 \/ 6 * j <= idx)%Z -> a idx = A idx) /\
-      snd st = 1 / a (6 * (j - 1))%Z.
+      snd st = 1 / a (6 * (j - 1))%Z /\
+      (* the unused tail of the band storage (rows >= n) is never written *)
+      (forall k r, (1 <= r <= 5)%Z -> (n <= k + r)%Z -> a (6 * k + r)%Z = A (6 * k + r)%Z).
 
     Lemma FInv_step bv j st : (1 <= j < n)%Z ->
       FInv j st -> FInv (j + 1) (solve_L2 bv n n j st).
     Proof.
       intros Hj. destruct st as [[h a] d]. unfold FInv. cbn [fst snd].
-      intros (Hcol & Hun & Hd).
+      intros (Hcol & Hun & Hd & Htl).
       unfold solve_L2. cbv zeta. cbn [fst snd].
       rewrite L3_sum.
       set (h1 := h * 0 + sumZ _ _ _).
@@ -224,7 +235,7 @@ Section BandLDL.
       { intros idx Hidx. rewrite Hfr by lia. unfold a1. now upd_simpl. }
       assert (Hdiag : a2 (6 * j)%Z = a (6 * j)%Z - h1).
       { rewrite Hfr by lia. unfold a1. now upd_simpl. }
-      split; [|split].
+      split; [|split; [|split]].
       - intros k Hk. destruct (Z.eq_dec k j) as [->|Hne].
         + split.
           * unfold E1. rewrite Hdiag. rewrite Hun by lia. unfold h1.
@@ -248,6 +259,8 @@ Section BandLDL.
         apply Hun. lia.
       - replace (6 * (j + 1 - 1))%Z with (6 * j)%Z by lia.
         unfold d1. rewrite Hdiag. unfold a1. now upd_simpl.
+      - intros k r Hr Hkr. rewrite Hfr by lia. unfold a1. upd_simpl.
+        apply Htl; assumption.
     Qed.
 
     (* first column *)
@@ -281,7 +294,7 @@ Section BandLDL.
       destruct (L1_loop bv F0 (1 / A 0%Z) (Z.min n 6)) as [Hfr Hrow]; [lia|].
       set (a0 := Zfold 1 (Z.min n 6) _ A) in *.
       assert (H0 : a0 0%Z = A 0%Z) by (apply Hfr; lia).
-      split; [|split].
+      split; [|split; [|split]].
       - intros k Hk. assert (k = 0)%Z by lia. subst k. split.
         + unfold E1. change (6 * 0)%Z with 0%Z. rewrite H0.
           rewrite sumZ_empty by (exact Fth || lia). ring.
@@ -291,6 +304,7 @@ Section BandLDL.
           rewrite sumZ_empty by (exact Fth || lia). ring.
       - intros idx Hidx. apply Hfr. lia.
       - change (6 * (1 - 1))%Z with 0%Z. now rewrite H0.
+      - intros k r Hr Hkr. apply Hfr. lia.
     Qed.
 
     Lemma FInv_final bv : (1 <= n)%Z -> FInv n (st_fact n A bv).
@@ -600,10 +614,12 @@ Section BandLDL.
        (no hypothesis on the pivots is needed for this: 1/0 is just a number) *)
     Lemma factor_spec :
       (forall k, (0 <= k < n)%Z -> ColOK n amat fa k) /\
-      (forall idx, (idx < 0 \/ 6 * n <= idx)%Z -> fa idx = amat idx).
+      (forall idx, (idx < 0 \/ 6 * n <= idx)%Z -> fa idx = amat idx) /\
+      (forall k r, (1 <= r <= 5)%Z -> (n <= k + r)%Z ->
+         fa (6 * k + r)%Z = amat (6 * k + r)%Z).
     Proof.
-      destruct (FInv_final n amat (fun _ => F0) Hn) as (H1 & H2 & _).
-      split; assumption.
+      destruct (FInv_final n amat (fun _ => F0) Hn) as (H1 & H2 & _ & H3).
+      split; [|split]; assumption.
     Qed.
 
     Lemma pivot_rec j : (0 <= j < n)%Z ->
@@ -617,7 +633,7 @@ Section BandLDL.
       (forall j, (0 <= j < n)%Z -> ia (6 * j)%Z = 1 / fa (6 * j)%Z) /\
       (forall idx, (forall j, (0 <= j < n)%Z -> idx <> (6 * j)%Z) -> ia idx = fa idx).
     Proof.
-      destruct (FInv_final n amat bvec Hn) as (_ & _ & Hd).
+      destruct (FInv_final n amat bvec Hn) as (_ & _ & Hd & _).
       exact (L6_loop bvec n n _ _ _ Hn Hd).
     Qed.
 
@@ -680,7 +696,7 @@ Section BandLDL.
       bandmul n amat (snd (solve n amat bvec)) i = bvec i.
     Proof.
       intros Hi. rewrite solve_eq. cbn [snd].
-      destruct factor_spec as [Hcol _].
+      destruct factor_spec as (Hcol & _ & _).
       rewrite (LDLt_mul n amat fa Hcol Hpiv x i Hi).
       rewrite <- (fwd_spec i Hi). unfold Lmul.
       apply sumZ_ext. intros k Hk. f_equal.
@@ -693,7 +709,7 @@ Section BandLDL.
       (forall i, (0 <= i < n)%Z -> bandmul n amat x' i = bvec i) ->
       forall i, (0 <= i < n)%Z -> snd (solve n amat bvec) i = x' i.
     Proof.
-      intros Hx'. destruct factor_spec as [Hcol _].
+      intros Hx'. destruct factor_spec as (Hcol & _ & _).
       apply (Ltmul_inj n fa). intros k Hk.
       assert (E : fa (6 * k)%Z * Ltmul n fa (snd (solve n amat bvec)) k
                   = fa (6 * k)%Z * Ltmul n fa x' k).
@@ -711,6 +727,21 @@ Section BandLDL.
       rewrite E. field. exact Hd.
     Qed.
   End Main.
+
+  (* the same statement with the sum written out, inclusive upper limit
+     min (n-1) (i+5) *)
+  Corollary solve_correct_explicit n amat bvec : (1 <= n)%Z ->
+    (forall j, (0 <= j < n)%Z -> pivot n amat j <> 0) ->
+    forall i, (0 <= i < n)%Z ->
+      sumZ (Z.max 0 (i - 5)) (Z.min (n - 1) (i + 5) + 1)
+        (fun j => (if (j <=? i)%Z then amat (i + 5 * j)%Z else amat (j + 5 * i)%Z)
+                  * snd (solve n amat bvec) j)
+      = bvec i.
+  Proof.
+    intros Hn Hpiv i Hi.
+    replace (Z.min (n - 1) (i + 5) + 1)%Z with (Z.min n (i + 6)) by lia.
+    exact (solve_correct n amat bvec Hn Hpiv i Hi).
+  Qed.
 
   (* solve n A (A x) = x *)
   Corollary solve_mul_id n amat (x : Z -> F) : (1 <= n)%Z ->
@@ -749,12 +780,18 @@ Section BandLDL.
      hypothesis needed) *)
   Theorem solve_frame n amat bvec : (1 <= n)%Z ->
     (forall idx, (idx < 0 \/ 6 * n <= idx)%Z -> fst (solve n amat bvec) idx = amat idx) /\
+    (forall k r, (1 <= r <= 5)%Z -> (n <= k + r)%Z ->
+       fst (solve n amat bvec) (6 * k + r)%Z = amat (6 * k + r)%Z) /\
     (forall idx, (idx < 0 \/ n <= idx)%Z -> snd (solve n amat bvec) idx = bvec idx).
   Proof.
-    intros Hn. rewrite solve_eq. cbn [fst snd]. split.
+    intros Hn. rewrite solve_eq. cbn [fst snd].
+    destruct (inv_spec n amat bvec Hn) as [_ I2'].
+    destruct (factor_spec n amat Hn) as (_ & _ & Htl').
+    split; [|split].
+    2:{ intros k r Hr Hkr. rewrite I2' by (intros j Hj; lia). apply Htl'; assumption. }
     - intros idx Hidx.
       destruct (inv_spec n amat bvec Hn) as [_ I2].
-      destruct (factor_spec n amat Hn) as [_ Hf].
+      destruct (factor_spec n amat Hn) as (_ & Hf & Htl).
       rewrite I2 by (intros j Hj; lia). apply Hf. exact Hidx.
     - intros idx Hidx.
       rewrite (proj2 (bwd_raw n amat bvec Hn)) by lia.
@@ -778,6 +815,51 @@ End BandLDL.
    hypothesis; [solve] returns its exact solution [exX]; the right-hand side
    [exB] is A exX.  The entries 77 are the unused tail of the band storage
    (rows >= n): they are never read.  Computed on Q (Base/ExecQ.v, [QOps]). *)
+Import ListNotations.
+
+(* Bounded quantifiers by one evaluation: the array is computed once (the
+   [let] is evaluated first by the VM), then read at every index. *)
+Lemma in_range n j : 0 <= j < n -> In j (range n).
+Proof.
+  intros Hj. unfold range. apply in_map_iff. exists (Z.to_nat j). split; [lia|].
+  apply in_seq. lia.
+Qed.
+
+Lemma eq_by_dump {A} n (f g : Z -> A) :
+  (let f' := f in map f' (range n)) = (let g' := g in map g' (range n)) ->
+  forall i, 0 <= i < n -> f i = g i.
+Proof.
+  cbv zeta. intros H i Hi.
+  rewrite map_ext_in_iff in H. apply H. apply in_range. exact Hi.
+Qed.
+
+Lemma nz_by_test {A} (t : A -> bool) (z : A) n (a : Z -> A) :
+  t z = true ->
+  (let a' := a in forallb (fun j => negb (t (a' (6 * j)))) (range n)) = true ->
+  forall j, 0 <= j < n -> a (6 * j) <> z.
+Proof.
+  cbv zeta. intros Hz H j Hj E.
+  rewrite forallb_forall in H. specialize (H j (in_range n j Hj)).
+  rewrite E, Hz in H. discriminate H.
+Qed.
+
+Definition qzero (q : Q) : bool := (Qnum q =? 0)%Z.
+Definition czero (c : Q * Q) : bool := qzero (fst c) && qzero (snd c).
+
+(* (the statements are matched syntactically with [exact]: letting [apply]
+   unify would make the unifier evaluate the solver by lazy reduction) *)
+Ltac by_dump n f g :=
+  let H := fresh "H" in
+  assert (H : (let f' := f in map f' (range n)) = (let g' := g in map g' (range n)))
+    by (vm_compute; reflexivity);
+  exact (eq_by_dump n _ _ H).
+Ltac by_nz t n a :=
+  let H := fresh "H" in
+  unfold pivot;
+  assert (H : (let a' := a in forallb (fun j => negb (t (a' (6 * j)))) (range n)) = true)
+    by (vm_compute; reflexivity);
+  exact (nz_by_test t 0%F n a eq_refl H).
+
 Definition exA : Z -> Q := arr1_of
   [ qz (5) 2; qz (4) 1; qz (-5) 1; qz (-1) 1; qz (1) 1; qz (-6) 1;
     qz (-6) 1; qz (-3) 1; qz (1) 2; qz (-6) 1; qz (-3) 1; qz (3) 4;
@@ -798,11 +880,6 @@ Definition exB : Z -> Q := arr1_of
     qz (641) 40; qz (287) 24; qz (-65) 18; qz (403) 9; qz (-49) 3;
     qz (79) 12 ].
 
-Ltac range11 j Hj :=
-  assert (Hc : j = 0 \/ j = 1 \/ j = 2 \/ j = 3 \/ j = 4 \/ j = 5 \/ j = 6
-               \/ j = 7 \/ j = 8 \/ j = 9 \/ j = 10) by lia;
-  clear Hj; repeat (destruct Hc as [Hc|Hc]; [subst j|]); [..|subst j].
-
 Example pivot_example :
   (forall j, 0 <= j < 11 -> pivot 11 exA j <> 0%F) /\
   (forall i, 0 <= i < 11 -> bandmul 11 exA exX i = exB i) /\
@@ -810,14 +887,66 @@ Example pivot_example :
   pivot 11 exA 1 = qz (-62) 5 /\ pivot 11 exA 10 = qz (-93879183835848) 37965020020745.
 Proof.
   split; [|split; [|split; [|split]]].
-  - intros j Hj. range11 j Hj; vm_compute; intro H; discriminate H.
-  - intros i Hi. range11 i Hi; vm_compute; reflexivity.
-  - intros i Hi. range11 i Hi; vm_compute; reflexivity.
+  - by_nz qzero 11 (ldl 11 exA).
+  - by_dump 11 (bandmul 11 exA exX) exB.
+  - by_dump 11 (snd (solve 11 exA exB)) exX.
   - vm_compute; reflexivity.
   - vm_compute; reflexivity.
 Qed.
 
+(* The use case in emg3d: a complex symmetric (not Hermitian) 11x11 system,
+   numbers = pairs of rationals ([CxOps] over [QOps]). *)
+Definition arrc_of (l : list (Q * Q)) : Z -> Q * Q := arr_of_list (0%Q, 0%Q) l.
+Definition exAc : Z -> Q * Q := arrc_of
+  [
+    cq (5) 1 (5) 2; cq (1) 1 (-1) 1; cq (2) 1 (-2) 1;
+    cq (3) 2 (-2) 1; cq (4) 3 (-2) 1; cq (1) 1 (-2) 1;
+    cq (8) 1 (5) 1; cq (-4) 1 (-1) 1; cq (-2) 1 (1) 2;
+    cq (-1) 3 (-1) 2; cq (3) 1 (-3) 2; cq (0) 1 (4) 1;
+    cq (7) 1 (3) 2; cq (-1) 3 (0) 1; cq (-1) 1 (-3) 2;
+    cq (-3) 2 (2) 1; cq (-4) 3 (-4) 1; cq (-1) 1 (3) 2;
+    cq (7) 1 (2) 1; cq (-1) 1 (-1) 2; cq (1) 1 (0) 1;
+    cq (-2) 1 (-3) 1; cq (-1) 3 (-3) 1; cq (-2) 1 (3) 1;
+    cq (7) 1 (5) 1; cq (1) 1 (-1) 1; cq (2) 3 (2) 1;
+    cq (1) 1 (-1) 1; cq (0) 1 (0) 1; cq (-1) 1 (2) 1;
+    cq (2) 1 (2) 1; cq (3) 2 (-2) 1; cq (0) 1 (-3) 1;
+    cq (-3) 1 (-1) 1; cq (1) 2 (3) 1; cq (1) 1 (-1) 1;
+    cq (3) 1 (6) 1; cq (0) 1 (-1) 1; cq (-2) 3 (4) 1;
+    cq (1) 1 (-3) 2; cq (-4) 1 (-3) 1; cq (77) 1 (-77) 1;
+    cq (6) 1 (3) 1; cq (1) 1 (1) 1; cq (0) 1 (-2) 1;
+    cq (-2) 1 (3) 1; cq (77) 1 (-77) 1; cq (77) 1 (-77) 1;
+    cq (4) 1 (2) 1; cq (-4) 1 (0) 1; cq (3) 1 (-4) 1;
+    cq (77) 1 (-77) 1; cq (77) 1 (-77) 1; cq (77) 1 (-77) 1;
+    cq (3) 1 (3) 2; cq (4) 3 (-2) 1; cq (77) 1 (-77) 1;
+    cq (77) 1 (-77) 1; cq (77) 1 (-77) 1; cq (77) 1 (-77) 1;
+    cq (4) 1 (1) 1; cq (77) 1 (-77) 1; cq (77) 1 (-77) 1;
+    cq (77) 1 (-77) 1; cq (77) 1 (-77) 1; cq (77) 1 (-77) 1 ].
+Definition exXc : Z -> Q * Q := arrc_of
+  [
+    cq (0) 1 (3) 1; cq (4) 1 (-5) 2; cq (0) 1 (-1) 1;
+    cq (-5) 3 (5) 1; cq (2) 1 (-1) 2; cq (-3) 1 (-2) 1;
+    cq (3) 2 (-5) 1; cq (0) 1 (-2) 1; cq (-2) 1 (-5) 2;
+    cq (4) 1 (2) 1; cq (1) 3 (-5) 1 ].
+Definition exBc : Z -> Q * Q := arrc_of
+  [
+    cq (-35) 6 (50) 3; cq (653) 12 (-1) 6; cq (-853) 36 (1) 2;
+    cq (-241) 6 (277) 6; cq (223) 12 (65) 6; cq (-29) 6 (-59) 6;
+    cq (158) 3 (65) 3; cq (583) 18 (-25) 6; cq (-65) 3 (-37) 1;
+    cq (17) 18 (23) 12; cq (-61) 3 (-4) 1 ].
+
+Example pivot_example_complex :
+  (forall j, 0 <= j < 11 -> pivot 11 exAc j <> 0%F) /\
+  (forall i, 0 <= i < 11 -> bandmul 11 exAc exXc i = exBc i) /\
+  (forall i, 0 <= i < 11 -> snd (solve 11 exAc exBc) i = exXc i).
+Proof.
+  split; [|split].
+  - by_nz czero 11 (ldl 11 exAc).
+  - by_dump 11 (bandmul 11 exAc exXc) exBc.
+  - by_dump 11 (snd (solve 11 exAc exBc)) exXc.
+Qed.
+
 Print Assumptions solve_correct.
+Print Assumptions solve_correct_explicit.
 Print Assumptions solve_unique.
 Print Assumptions solve_mul_id.
 Print Assumptions solve_linear_rhs.
@@ -825,3 +954,4 @@ Print Assumptions solve_frame.
 Print Assumptions solve_amat_out.
 Print Assumptions factor_spec.
 Print Assumptions pivot_example.
+Print Assumptions pivot_example_complex.
